@@ -74,12 +74,11 @@ func convertToParagraph(data reflect.Value) (*Paragraph, error) {
 		return &para, nil
 	}
 
-	/* the embedded Paragraph first, wherever the struct declares it: the
-	 * members walked below are checked against it */
-	for i := 0; i < data.NumField(); i++ {
-		if fieldType := data.Type().Field(i); fieldType.Anonymous && fieldType.Type == paragraphType {
-			foundParagraph = data.Field(i).Interface().(Paragraph)
-		}
+	/* the embedded Paragraph first, wherever the struct declares it (at
+	 * the top, or inside one of the plain structs it embeds): the members
+	 * walked below are checked against it */
+	if found := findParagraph(data, paragraphType); found != nil {
+		foundParagraph = *found
 	}
 
 	if err := collectMembers(data, paragraphType, &foundParagraph, &order, values); err != nil {
@@ -90,6 +89,42 @@ func convertToParagraph(data reflect.Value) (*Paragraph, error) {
 }
 
 // }}}
+
+// findParagraph looks for the embedded Paragraph the way collectMembers
+// walks: through anonymously embedded plain structs.
+func findParagraph(data reflect.Value, paragraphType reflect.Type) *Paragraph {
+	for i := 0; i < data.NumField(); i++ {
+		field := data.Field(i)
+		fieldType := data.Type().Field(i)
+		if !fieldType.Anonymous || fieldType.Tag.Get("control") == "-" {
+			continue
+		}
+		if fieldType.Type == paragraphType {
+			if field.CanInterface() {
+				para := field.Interface().(Paragraph)
+				return &para
+			}
+			/* under an unexported alias name reflection won't hand the
+			 * value out as it is: copy it member by member */
+			para := Paragraph{Order: []string{}, Values: map[string]string{}}
+			order := field.FieldByName("Order")
+			for i := 0; i < order.Len(); i++ {
+				para.Order = append(para.Order, order.Index(i).String())
+			}
+			iter := field.FieldByName("Values").MapRange()
+			for iter.Next() {
+				para.Values[iter.Key().String()] = iter.Value().String()
+			}
+			return &para
+		}
+		if field.Kind() == reflect.Struct {
+			if found := findParagraph(field, paragraphType); found != nil {
+				return found
+			}
+		}
+	}
+	return nil
+}
 
 // collectMembers renders the members of one struct into order / values; the
 // members of an anonymously embedded plain struct count as the struct's own
